@@ -9336,6 +9336,11 @@ class SVG(Group):
                     if context is not None:
                         context.append(s)
                     context = s
+                    # The position and size of this svg element are not those of its content.
+                    values = dict(values)
+                    for key in (SVG_ATTR_X, SVG_ATTR_Y, SVG_ATTR_WIDTH, SVG_ATTR_HEIGHT):
+                        if key in values:
+                            del values[key]
                 elif SVG_TAG_GROUP == tag:
                     try:
                         s = Group(values)
